@@ -5,7 +5,8 @@
    specification: canon_dec, c08_int_ok, c08_atoi_ok, c08_float_ok ... (Spec_C08.v). *)
 From Coq Require Import ZArith List Bool.
 From Flocq Require Import IEEE754.BinarySingleNaN.
-From F8 Require Import C08.NumInt C08.NumFloat C08.Spec_C08 C08.NumIntProofs C08.NumFloatProofs.
+From F8 Require Import C08.NumInt C08.NumFloat C08.Spec_C08 C08.NumIntProofs C08.NumFloatProofs
+  C08.NumFloatShapeProofs.
 Import ListNotations.
 Local Open Scope Z_scope.
 
@@ -156,6 +157,27 @@ Theorem c08_dtoa_int_partial : forall n p, Z.abs n < 2147483648 -> 0 <= p <= 9 -
   (DT_text (canon_dec n ++ (if p =? 0 then [] else [46; 48])), Some (f_of_Z n)).
 Proof. exact float_roundtrip_int_lemma. Qed.
 Print Assumptions c08_dtoa_int_partial.
+
+(* Shape, for EVERY finite double and every precision argument (clamped to 0..9 as the code does):
+   whenever modp_dtoa writes a decimal text it is [-]digits without redundant leading zero, with
+   no point at precision 0 and otherwise a point followed by 1..p digits (c08_shape_ok); the digit
+   loops never run out of fuel.  (Needed by C02: a rendered float never contains SOH or '='.) *)
+Theorem c08_dtoa_digits_partial : forall v p0, is_finite v = true ->
+  match modp_dtoa v p0 with
+  | DT_text t => c08_shape_ok (clamp_prec p0) t = true
+  | DT_fuel => False
+  | DT_sprintf | DT_overflow => True
+  end.
+Proof. exact dtoa_shape_lemma. Qed.
+Print Assumptions c08_dtoa_digits_partial.
+
+(* ... and inside the threshold (|v| <= 2^31-1, the test the code itself makes) the outcome IS a
+   text: the sprintf and ++whole-overflow outcomes only occur for |v| > 2^31-1. *)
+Theorem c08_dtoa_text_within_threshold : forall v p0, is_finite v = true ->
+  flt thres_max (if flt v fzero then fneg v else v) = false ->
+  exists t, modp_dtoa v p0 = DT_text t /\ c08_shape_ok (clamp_prec p0) t = true.
+Proof. exact dtoa_total_lemma. Qed.
+Print Assumptions c08_dtoa_text_within_threshold.
 
 (* Non-vacuity: INT_MIN meets the hypotheses of the integer theorems and of the integral-double
    theorem (as -2147483647 - 1 is outside the latter, its neighbour is used there). *)
